@@ -268,6 +268,8 @@ def generated_module():
     src.append('static long long mix2(short a, unsigned long long b) { return a + (long long)b; }')
     cdef.append('int second3(unsigned char, int, long);')
     src.append('static int second3(unsigned char a, int b, long c) { return b; }')
+    cdef.append('int fill(int *p, short n); int fill2(short n, int *p);')
+    src.append('static int fill(int *p, short n) { return n; } static int fill2(short n, int *p) { return n; }')
     code = '''
 import sys
 sys.path.insert(0, %r)
@@ -432,6 +434,95 @@ def routing_worker(args):
     return hutil.export(chk)
 
 
+ORDER_REPLAY = r"""
+# Replay for C13: when two arguments of one call are invalid, every call path reports the same one (the left-most):
+# the API-mode wrapper lib.f(...) against the libffi path ffi.addressof(lib, 'f')(...).
+import sys, os, tempfile, atexit, shutil, importlib
+import cffi
+d = tempfile.mkdtemp(); atexit.register(shutil.rmtree, d, True)
+sys.path.insert(0, d)
+ffi = cffi.FFI()
+ffi.cdef("int fill(int *p, short n); int fill2(short n, int *p);")
+ffi.set_source('_c13_order_replay', "static int fill(int *p, short n) { return n; } static int fill2(short n, int *p) { return n; }")
+ffi.compile(tmpdir=d)
+m = importlib.import_module('_c13_order_replay')
+ffi, lib = m.ffi, m.lib
+def exc(f, *a):
+    try:
+        f(*a); return 'no error'
+    except Exception as e:
+        return type(e).__name__
+bad = []
+for name, args in (('fill', (5, 2 ** 20)), ('fill2', (2 ** 20, 5))):
+    a = exc(getattr(lib, name), *args)
+    b = exc(ffi.addressof(lib, name), *args)
+    if a != b:
+        bad.append('%s%r: lib.%s raises %s, the libffi path raises %s' % (name, args, name, a, b))
+for b in bad: print('VIOLATED:', b)
+sys.exit(1 if bad else 0)
+"""
+
+
+def order_worker(args):
+    """generated wrappers convert their arguments left to right, like cdata_call: with two invalid arguments the exception is
+    the left-most one's (a pointer parameter before / after an integer parameter)"""
+    prop, tier, kind, fname = args
+    chk = hutil.sub_check(prop, tier)
+    back = irgen.backend()
+    gen = generated_module()
+    label = 'wrapper-argument-order:%s' % fname
+    ex = llsym.Executor([gen, back], pystubs.stubs(), loop_bound=16)
+    done = {}
+
+    def replay(case):
+        if 'r' not in done:
+            path = chk.write_replay('order', ORDER_REPLAY)
+            rc, out = common.run_replay(path, timeout=600)
+            done['r'] = (common.replay_verdict(rc, out), path)
+        return done['r']
+
+    def h(ex):
+        py = pystubs.PyEnv(ex)
+        src, dst = ex.gaddr('cffi_exports'), ex.gaddr('_cffi_exports')
+        for k in range(back.sizeof(back.globals['cffi_exports'].ty) // 8):
+            ex.mem.store(dst + 8 * k, ex.mem.load(src + 8 * k, 8), 8)
+        ex.stubs['PyEval_SaveThread'] = lambda e: 0x77
+        ex.stubs['PyEval_RestoreThread'] = lambda e, t: None
+        cell = ex.mem.alloc(4, 'errno', 'heap', fill=0)
+        ex.stubs['__errno_location'] = lambda e: cell.base
+
+        def unpack(e, args_, name, lo, hi, *outs):
+            items = py.info(simp(args_))['items']
+            for o, it in zip(outs, items):
+                e.mem.store(o, it, 8)
+            return 1
+        ex.stubs['PyArg_UnpackTuple'] = unpack
+        order = []
+
+        def prepare_ptr(e, ct, init, out):
+            # the pointer argument is an object no pointer conversion accepts
+            order.append('pointer')
+            py.exc = 'PyExc_TypeError'
+            return mask(64)
+        ex.stubs['_prepare_pointer_call_argument'] = prepare_ptr
+        V = z3.BitVec('n', W)
+        ex.assume(z3.Or(V < V_const(-(1 << 15)), V > V_const((1 << 15) - 1)))       # does not fit a short
+        badptr = py.new_opaque('not-a-pointer')
+        argv = [badptr, py.new_int(V)] if fname == 'fill' else [py.new_int(V), badptr]
+        r = simp(ex.call('_cffi_f_' + fname, [0, py.new_tuple(argv)]))
+        hutil.witness(chk, ex, label)
+        want = 'PyExc_TypeError' if fname == 'fill' else 'PyExc_OverflowError'
+        hutil.discharge(chk, ex, label + ':call-refused', is_c(r) and r == 0, {'n': V}, replay=replay)
+        hutil.discharge(chk, ex, label + ':the-left-most-invalid-argument-is-reported', py.exc == want, {'n': V}, replay=replay)
+
+    res = ex.explore(h, max_paths=200)
+    hutil.finish_explore(chk, ex, res, label)
+    if not chk.witnesses:
+        chk.inconc(label + ': no path reached an obligation')
+    chk.functions = irgen.func_info(gen, sorted(ex.called)) + irgen.func_info(back, sorted(ex.called))
+    return hutil.export(chk)
+
+
 def errno_worker(args):
     """the libffi path's errno bracket (all paths must hand the same errno to ffi.errno): the obligation of harness/C22.py"""
     from harness import C22
@@ -443,6 +534,8 @@ def dispatch(args):
         return errno_worker(args)
     if args[2] == 'routing':
         return routing_worker(args)
+    if args[2] == 'order':
+        return order_worker(args)
     if args[2] == 'fbstruct':
         return fbstruct_worker(args)
     return (fb_worker if args[2] == 'fb' else wrapper_worker)(args)
@@ -459,6 +552,8 @@ def run(chk):
     cases.append(P + ('errno',))
     cases.append(P + ('routing', 'mix2'))
     cases.append(P + ('routing', 'second3'))
+    cases.append(P + ('order', 'fill'))
+    cases.append(P + ('order', 'fill2'))
     cases.append(P + ('bool', 'id_b', '_Bool', 1, False))
     cases.append(P + ('double', 'id_d', 'double', 8, True))
     cases.append(P + ('double', 'id_f', 'float', 4, True))
@@ -466,7 +561,7 @@ def run(chk):
                   'struct by value': 'a struct argument whose fields are scalars or arrays of up to %d dimensions, every length 1..3' % (2 if quick else 3),
                   'generated wrappers': 'identity functions over %d integer types/typedefs, _Bool, float, double: every Python int / double; two multi-argument functions (argument routing)' % len(INT_TYPES)}
     chk.outside = ['libffi itself (assembly) and its ABI classification of the described struct; variadic calls',
-                   'dlopen paths (they reach the same cdata_call)', 'pointer/char/struct arguments of generated wrappers',
+                   'dlopen paths (they reach the same cdata_call)', 'conversion of pointer/char/struct arguments of generated wrappers (only the order in which a pointer argument is converted)',
                    'return-value conversion differences for narrow types (both paths use the same _cffi_from_c_* / convert_to_object kernels)']
     chk.assume('the generated module is produced by the working tree\'s Recompiler at run time and compiled with the backend\'s flags; '
                '_cffi_exports[] is bound to the backend\'s cffi_exports[] as _cffi_init does')
